@@ -196,6 +196,11 @@ func (ss *SpecSet) parse(src, file, pkgPath string, trusted bool) error {
 			if err != nil {
 				return fmt.Errorf("%s:%d: %v", file, l.no, err)
 			}
+			if kw == "func" && params != nil {
+				// "func Iface.Method(recv, ...) (...)": the contract of an interface method - an assumption about
+				// every implementation that may be passed in (reported as an assumed contract)
+				c.Trusted = true
+			}
 			if kw == "assume-func" {
 				// assumed contract of a function outside this package (fully qualified key), valid for
 				// the claims that load this contract file only
